@@ -56,6 +56,8 @@ def run(tier, seed, t0):
         if cfg[1] != "0":
             floors[cfg + " populations with mutually coupled pairs"] = (g("populations_with_coupled_pairs"), 0.3 * n)
             floors[cfg + " coupled pair updates judged"] = (g("coupled_pair_steps_checked"), 20 * n)
+            if cfg.startswith("c2"):
+                floors[cfg + " three-node junction updates judged"] = (g("junction_steps_checked"), 5 * n)
     return R.finish("C03", tier, seed, m,
                     "population = 1-8 cells (classes epithelial/ecm/lumen/nucleus/static, random closed meshes <= 160 faces, 0-3 free node slots in 40 % "
                     "of the cells) x size 1e-6..1e1 x dt 1e-8..1e2 x density 1e-3..1e7 (x 0.1..10 per cell) x damping*dt/mass 1e-8..1e2 x "
